@@ -41,6 +41,37 @@ CORPUS = [
 ]
 
 
+def _q(b):
+    return _c("query_bucket", _s(b))
+
+
+# programs run with the REAL builtin bodies on a populated in-memory store
+REAL = [
+    [["RETURN", _q("win")]],
+    [["RETURN", _c("query_bucket_eventcount", _s("win"))]],
+    [["RETURN", _c("filter_keyvals", _q("win"), _s("app"), ["l", [_s("a0"), _s("a2")]])]],
+    [["RETURN", _c("exclude_keyvals", _q("win"), _s("app"), ["l", [_s("a0")]])]],
+    [["RETURN", _c("filter_keyvals_regex", _q("win"), _s("title"), _s("t1"))]],
+    [["e", _q("win")], ["a", _c("filter_keyvals", _q("afk"), _s("status"), ["l", [_s("not-afk")]])],
+     ["RETURN", _c("filter_period_intersect", ["v", "e"], ["v", "a"])]],
+    [["RETURN", _c("merge_events_by_keys", _q("win"), ["l", [_s("app")]])]],
+    [["RETURN", _c("merge_events_by_keys", _c("flood", _q("win")), ["l", [_s("app"), _s("title")]])]],
+    [["RETURN", _c("limit_events", _c("sort_by_duration", _c("merge_events_by_keys", _q("win"), ["l", [_s("app")]])), ["i", 2])]],
+    [["RETURN", _c("sort_by_timestamp", _c("concat", _q("afk"), _q("win")))]],
+    [["RETURN", _c("chunk_events_by_key", _q("win"), _s("app"))]],
+    [["RETURN", _c("sum_durations", _q("win"))]],
+    [["RETURN", _c("period_union", _q("win"), _q("afk"))]],
+    [["RETURN", _c("union_no_overlap", _q("afk"), _q("win"))]],
+    [["RETURN", _c("split_url_events", _q("win"))]],
+    [["RETURN", _c("simplify_window_titles", _q("win"), _s("title"))]],
+    [["RETURN", _c("query_bucket", _c("find_bucket", _s("wi")))]],
+    [["RETURN", _c("query_bucket", _c("find_bucket", _s("af"), _s("host1")))]],
+    [["RETURN", _c("categorize", _q("win"), ["l", [["l", [["l", [_s("Work")]], ["d", [["type", _s("regex")], ["regex", _s("a0|a2")]]]]]]])]],
+    [["RETURN", _c("tag", _q("win"), ["l", [["l", [_s("zero"), ["d", [["type", _s("regex")], ["regex", _s("a0")]]]]]]])]],
+    [["RETURN", ["d", [["n", _c("nop")], ["events", _c("limit_events", _q("win"), ["i", 1])], ["k", ["l", [["v", "NAME"], ["v", "true"]]]]]]]],
+]
+
+
 class C11(Prop):
     ID = "C11"
     MODULE = "AwProofs.Props.C11"
@@ -105,6 +136,9 @@ class C11(Prop):
         rng = ctx.rng("c11corpus")
         for p in CORPUS:
             out.append(("corpus", {"k": "prog", "prog": p, "lays": self.lays(rng, 4), "ret": dret}))
+        rng = ctx.rng("c11real")
+        for p in REAL:
+            out.append(("real-builtins", {"k": "real", "prog": p, "lays": self.lays(rng, 4)}))
         # every builtin, well-typed, with bracketed arguments everywhere
         rng = ctx.rng("c11builtins")
         for name in sorted(reg):
@@ -160,13 +194,22 @@ class C11(Prop):
 
     def impl(self, case):
         texts = self.texts(case)
+        if case["k"] == "real":
+            return {"texts": texts, "outs": [Q.run_text_real(t) for t in texts]}
         return {
             "texts": texts,
             "outs": [Q.run_text(t, case["ret"]) for t in texts],
             "denote": Q.ref_eval(case["prog"], Q.registry(), case["ret"]),
         }
 
+    def same(self, case, impl_out, model_out):
+        if case["k"] == "real":  # real builtin bodies: no model, the oracle evaluates directly
+            return True
+        return impl_out == model_out
+
     def model_lines(self, case):
+        if case["k"] == "real":
+            return []
         ls = []
         for seed, ti in case["lays"]:
             ls.append(Q.line_render(case["prog"], seed, Q.TABLES[ti]))
@@ -176,6 +219,8 @@ class C11(Prop):
         return ls
 
     def model_out(self, case, answers):
+        if case["k"] == "real":
+            return None
         n = len(case["lays"])
         texts = [Q.r_result(a, lambda t: t.str()) for a in answers[:n]]
         outs = [Q.r_result(a, Q.r_val) for a in answers[n : 2 * n]]
@@ -183,8 +228,20 @@ class C11(Prop):
 
     # ---- the property --------------------------------------------------------------------------
     def oracle(self, case, out):
-        want = Q.ref_eval(case["prog"], Q.registry(), case["ret"])
         texts = self.texts(case)
+        if case["k"] == "real":
+            if out is None:
+                return None
+            want = Q.ref_eval_real(case["prog"])
+            if want[0] == "err":
+                raise RuntimeError(f"reference evaluation of a real-builtins program failed: {want}")
+            for t, o in zip(texts, out["outs"]):
+                if Q.ref_parse(t) != case["prog"]:
+                    raise RuntimeError(f"reference parser does not read back the rendered program: {t!r}")
+                if o != want:
+                    return f"text {t!r}: result of query() differs from applying the builtins to the argument values directly"
+            return None
+        want = Q.ref_eval(case["prog"], Q.registry(), case["ret"])
         for t, o, (seed, ti) in zip(texts, out["outs"], case["lays"]):
             back = Q.ref_parse(t)
             if back != case["prog"]:
@@ -208,6 +265,8 @@ class C11(Prop):
 
     def features(self, case, out):
         fs = []
+        if case["k"] == "real":
+            return ["real:" + case["prog"][-1][1][1] if case["prog"][-1][1][0] == "c" else "real:other"]
         o = out["outs"][0]
         fs.append("result:" + (("err:" + o[1]) if o[0] == "err" else "value"))
         d = max([Q.depth(e) for _, e in case["prog"]], default=0)
